@@ -182,6 +182,20 @@ def handle (d : DS) : List String → DS × String
       | .ok h => ({ d with h := h }, "ok")
       | .error (e, h) => ({ d with h := h }, e.name)
     | _, _, _, _, _ => (d, "bad-op")
+  | ["outb", name, k, a, b, w, c] =>
+    match name.toNat?.bind d.tid, parseBin k, parseOperand d a, parseOperand d b, parseMask w, parseConst c with
+    | some t, some k, some a, some b, some w, some c =>
+      match inPlaceOp d.h (d.vars.map (·.2)) t k [a, b] c w with
+      | .ok h => ({ d with h := h }, "ok")
+      | .error (e, h) => ({ d with h := h }, e.name)
+    | _, _, _, _, _, _ => (d, "bad-op")
+  | ["outu", name, k, a, w, c] =>
+    match name.toNat?.bind d.tid, parseUn k, parseOperand d a, parseMask w, parseConst c with
+    | some t, some k, some a, some w, some c =>
+      match inPlaceOp d.h (d.vars.map (·.2)) t k [a] c w with
+      | .ok h => ({ d with h := h }, "ok")
+      | .error (e, h) => ({ d with h := h }, e.name)
+    | _, _, _, _, _ => (d, "bad-op")
   | ["outu", name, k, a, w] =>
     match name.toNat?.bind d.tid, parseUn k, parseOperand d a, parseMask w with
     | some t, some k, some a, some w =>
